@@ -102,6 +102,17 @@ class Facts:
     # ------------------------------------------------------------ symbolic values
     def sym_operand(self, op, depth=0):
         if op[0] == 'k':
+            if op[1].startswith('promoted:'):
+                # a promoted constant: `&<value>`; recover enum variants / scalars from the promoted body
+                proms = self.b.d.get('promoted') or []
+                i = int(op[1].split(':')[1])
+                rv = proms[i] if i < len(proms) else None
+                if rv:
+                    if rv[0] == 'agg' and rv[1] == 'adt' and not rv[4]:
+                        return ('ref', ('k', '%s::%s' % (rv[2], rv[3]), rv[2]))
+                    if rv[0] == 'use' and rv[1][0] == 'k':
+                        return ('ref', ('k', rv[1][1], rv[1][2]))
+                return ('k', '%s::%s' % (self.b.path, op[1]), op[2])
             return ('k', op[1], op[2])
         if op[0] == 'fn':
             return ('fn', op[1])
@@ -600,7 +611,11 @@ def fmt_sym(body, s, depth=0):
         return str(s)
     k = s[0]
     if k == 'k':
-        return s[1] if len(s[1]) < 24 else 'const'
+        if len(s[1]) < 24:
+            return s[1]
+        if re.fullmatch(r'[A-Za-z_][A-Za-z0-9_:]*', s[1]):
+            return '::'.join(s[1].split('::')[-2:])
+        return 'const'
     if k == 'place':
         out = body.local_name(s[1])
         for t in s[2]:
